@@ -1,6 +1,6 @@
 """C17 - library glue is installed exactly once, in time, module-provided beats built-in.
 Sequential: explicit-state BFS to a fixpoint over histories of sys.modules insertions/removals/re-insertions
-interleaved with extractions, for every assignment of glue kinds to 3 synthetic module names.
+interleaved with extractions (through each public entry point), for every assignment of glue kinds to 3 synthetic module names.
 Concurrent: stateless schedule exploration (E3) of 2-3 threads entering extract() with every line of the
 installation routine a scheduling point and the lock a model lock.  3.9 compatible."""
 import itertools
@@ -12,7 +12,7 @@ import warnings
 LEVEL = "model_checking"
 RULE = ("Sequential: for every assignment of kinds {module glue, built-in glue, both, neither, raising module glue, raising "
         "built-in glue} to synthetic module names (3 names; quick: all assignments over a 2-name core + a fixed third, thorough: "
-        "all 6^3), breadth-first search over histories of add(name) / remove(name) / extract() to a FIXPOINT of the canonical "
+        "all 6^3), breadth-first search over histories of add(name) / remove(name) / extraction through each of extract(), extract_outermost(), extract_since(), extract_until() to a FIXPOINT of the canonical "
         "state (order of present synthetic modules, which still carry an un-run glue function, pending built-in glue, O(1) cache "
         "contents relative to the base, reference run counts capped at 2); each state is rebuilt by replaying its history on the "
         "real library. Oracle at every extract: exactly the glue the reference model expects ran (module fn once per module "
@@ -46,6 +46,12 @@ def bounds(tier):
 
 KINDS = ["module", "builtin", "both", "neither", "raising", "raising_builtin"]
 NAMES = ["vmod_a", "vmod_b", "vmod_c"]
+
+
+class _One(object):
+    def __init__(self, fr):
+        self.frames = [fr] if fr is not None else []
+        self.error = None
 
 
 class World(object):
@@ -117,10 +123,19 @@ class World(object):
     def remove(self, n):
         del sys.modules[n]
 
-    def extract(self):
+    def extract(self, how="extract"):
+        """every public extraction entry point counts as 'an extraction'"""
         with warnings.catch_warnings(record=True) as w:
             warnings.simplefilter("always")
-            st = self.ss.extract(self.gen())
+            if how == "outermost":
+                fr = self.ss.extract_outermost(self.gen())
+                st = _One(fr)
+            elif how == "since":
+                st = self.ss.extract_since(sys._getframe(0))
+            elif how == "until":
+                st = self.ss.extract_until(sys._getframe(0), limit=2)
+            else:
+                st = self.ss.extract(self.gen())
         return st, [x for x in w if issubclass(x.category, RuntimeWarning)]
 
     def cache_repr(self):
@@ -193,6 +208,9 @@ class Ref(object):
         return (tuple(sorted((n, s["modfn"]) for n, s in self.present.items())), tuple(sorted(self.builtin_pending.items())))
 
 
+HOWS = ("extract", "outermost", "since", "until")
+
+
 def replay_history(W, kinds, hist):
     """Rebuild state by replaying hist on the real library. Returns (problems, ref, glue_total_counts)."""
     W.reset(kinds)
@@ -208,7 +226,7 @@ def replay_history(W, kinds, hist):
             ref.remove(op[1])
         else:
             del W.log[:]
-            st, warns = W.extract()
+            st, warns = W.extract(*op[1:])
             exp, nwarn = ref.extract()
             got = sorted((e[0], e[1]) for e in W.log)
             for e in W.log:
@@ -233,7 +251,8 @@ def enabled_ops():
             ops.append(("remove", n))
         else:
             ops.append(("add", n))
-    ops.append(("extract",))
+    for how in HOWS:
+        ops.append(("extract", how))
     return ops
 
 
